@@ -10,6 +10,8 @@ Open Scope N_scope.
 
 Definition is_name (n : str) (m : string) : bool := str_eqb n (runes m).
 Definition max_macro_expansions : nat := (100 * 100)%nat.
+Definition max_macro_args_size : nat := (100 * 100)%nat.
+Definition args_size (a : list arg) : nat := fold_left (fun n x => (n + List.length x)%nat) a 0%nat.
 Definition out_of_fuel (s : st) : st := s <| panicked := Some (R "out of fuel") |>.
 
 Open Scope string_scope.
@@ -51,7 +53,7 @@ Definition pim_of (pb : list block -> st -> st) : PIM := fun (a : list arg) (s :
               <| buf := [] |> <| ws := false |> <| inl := true |> <| par := true |> <| process := true |> <| has_cur := true |> <| sinline := [] |> in
   let s2 := pb blocks s1 in
   let s3 := close_unclosed_inline s2 in
-  (buf s3, s3 <| buf := buf s |> <| macro := macro s |> <| args := args s |> <| ws := ws s |> <| inl := false |>
+  (flat (buf s3), s3 <| buf := buf s |> <| macro := macro s |> <| args := args s |> <| ws := ws s |> <| inl := false |>
               <| par := par s |> <| process := process s |> <| quiet := false |> <| has_cur := has_cur s |> <| line := line s3 |> <| sinline := sinline s |>).
 
 (* macroIncludeFile *)
@@ -61,7 +63,7 @@ Definition macro_include (pb : list block -> st -> st) (s : st) : st :=
                      | Some f => let '(fs, s') := formats_of f s1 in
                                  let s'' := if process s' then check_formats fs s' else s' in (not_export_format fs s'', s'')
                      | None => (false, s1) end in
-  if skip then s2 else
+  if skip then s2 <| elided := true |> else
   match po_args o with
   | [] => if process s2 then err "filename argument required" s2 else s2
   | a0 :: _ =>
@@ -103,6 +105,7 @@ Definition user_macro (pb : list block -> st -> st) (m : umdef) (n : str) (l : n
     (if process s0 && negb (xexh s0) then err "recursive macro: too many expansions" s0 else s0) <| xexh := true |>
   else
   let s0 := s0 <| xcount ::= S |> in
+  if Nat.ltb max_macro_args_size (args_size (args s0)) then (if process s0 then err "recursive macro: arguments too large" s0 else s0) else
   let sq := if negb (process s0) then s0 <| quiet := true |> else s0 in
   let '(o, sa) := parse_opts (um_opts m) (args sq) sq in
   let sb := if negb (process sa) then sa <| quiet := false |> else sa in
@@ -159,7 +162,8 @@ Definition step (pb : list block -> st -> st) (b : block) (s : st) : st :=
     end
   | None =>
     match b with
-    | BText _ _ => (process_text s0) <| prev := [] |>
+    | BText _ _ => let s1 := process_text s0 in
+                   match bf s1 with Some b => if bf_ignore b then s1 else s1 <| prev := [] |> | None => s1 <| prev := [] |> end
     | BMacro n a l =>
       match (if inl s0 then None else assoc n (umacros s0)) with
       | Some m => user_macro pb m n l s0
@@ -170,6 +174,7 @@ Definition step (pb : list block -> st -> st) (b : block) (s : st) : st :=
                     | Some _ => if is_name n "Ef" || is_name n "#if" || is_name n "#;" then s0 else err "found macro while Bf isn't closed" s0
                     | None => s0 end in
           let s1 := h sx in
+          if elided s1 then s1 <| elided := false |> else
           if is_name n "#de" || is_name n "#." || is_name n "#if" || is_name n "#;" || is_name n "#dv" || is_name n "X" then s1
           else s1 <| prev := n |>
         | None => match n with [] => s0 | _ => if process s0 then err "unknown macro" s0 else s0 end
@@ -197,7 +202,7 @@ Definition init_st : st :=
        (mkToc false false 0 0 0 0 0 0 0 0 0) [] [] [] [] [] [] []
        0 0 0 0 [] [] false false [] 0 false 0 [] []
        [(R "xhtml-index", R "full"); (R "lang", R "en")] [] []
-       0 None [] [] 0 None 0 false [] [] false (R "xhtml") [] false false 0%Z [] [] [] false 0 [] [] [] [] None.
+       0 None [] [] 0 None 0 false [] [] false false (R "xhtml") [] false false 0%Z [] [] [] false 0 [] [] [] [] None.
 
 Definition reset (s : st) : st :=
   init_st <| format := format s |> <| existing := existing s |> <| fs := fs s |> <| libdirs := libdirs s |> <| unrestricted := unrestricted s |>
@@ -250,7 +255,7 @@ Definition compile (fuel : nat) (fmtname : str) (md : nat) (wd : world) (main : 
   let s2 := run_blocks fuel bs (exp_reset (reset s1)) in
   match panicked s2 with Some _ => s2 | None =>
   let s8 := exp_post (eof_sweep s2) in
-  s8 <| files ::= fun l => l ++ [(curfile s8, wout s8)] |>
+  s8 <| files ::= fun l => l ++ [(curfile s8, flat (wout s8))] |>
   end end.
 
 (* main is the path of the main source in the world's file system *)
